@@ -89,8 +89,12 @@ package isolation
 // whole-set load: grouping by resource must cope with any element, including nil
 //@ func LoadRules(rules) (changed, err)
 //@   props C13
-//@   requires ruleMap != nil && currentRules != nil && ruleMap != currentRules
+//@   objinv ruleMap != nil && currentRules != nil && ruleMap != currentRules
 //@   panics never
+//@   sets gIsoLoadN = old(gIsoLoadN) + 1
+//@   sets gIsoLoadArg = rules
+//@   ensures[recorded] gIsoLoadN == old(gIsoLoadN) + 1 && gIsoLoadArg == rules
+//@   modifies heap, gIsoLoadN, gIsoLoadArg
 //@   witness n = len(rules)
 //@   replay loadrules_nil
 
@@ -122,3 +126,12 @@ package isolation
 //@   loop 2:
 //@     invariant[fresh] cap(rules) == 0 || fresh(base(rules))
 //@     invariant[untouched] frame()
+
+// ---- loader entry points as seen by the datasource layer (C18): calls are recorded
+//@ ghost var gIsoLoadN Int
+//@ ghost var gIsoLoadArg Slice
+//@ ghost var gIsoClearN Int
+//@ func ClearRules() err
+//@   assumed
+//@   ensures gIsoClearN == old(gIsoClearN) + 1
+//@   modifies gIsoClearN
